@@ -14,6 +14,7 @@ from ..tooldiff import (
     Run, drive_tool, ref_tool, drive_agg, ref_agg, project_values, first_diff,
 )
 from .common import (
+    set_interrupts,
     COMPONENTS_BASE, run_sim, new_sim, finish_outcome, bounded_steps, enumerate_faults,
 )
 
@@ -77,7 +78,7 @@ def run_prepared(prep, st, ctx):
     tool = spec.tool
     uses = prep.uses
     sim = new_sim(st, interrupts=False)
-    sim.interrupt_den = (0, 0, 5, 2)[prep.interrupt]
+    set_interrupts(sim, (0, 0, 5, 2)[prep.interrupt])
     fault = None
     if uses:
         k = st.faults.draw(len(uses))
